@@ -159,3 +159,54 @@ func ZZ_C19_httpRouting() {
 		zz.Assert("unknown_hash_is_refused", err != nil)
 	}
 }
+
+func init() { zz.Register("ZZ_C14_httpCancelledWaiter", ZZ_C14_httpCancelledWaiter) }
+
+// ZZ_C14_httpCancelledWaiter: a request parked for the next round is cancelled (the HTTP client disconnects)
+// while the watch loop delivers that round, under every schedule with at most `preemptions` context switches
+// at lock/channel operations. The node process survives (no panic escapes the watch goroutine, which no
+// recovery interceptor covers), the cancelled request returns, and the handler keeps releasing later waiters.
+func ZZ_C14_httpCancelledWaiter() {
+	ctx, cancel := context.WithCancel(context.Background())
+	h := &DrandHandler{timeout: reqTimeout, log: zzfake.Logger(), context: ctx, version: "zz", beacons: map[string]*BeaconHandler{}}
+	cl := &zzNodeClient{stream: make(chan client2.Result, 4), info: zzInfo("default"), tag: 0xaa}
+	h.RegisterNewBeaconHandler(cl, "abcd")
+	hash := []byte{0xab, 0xcd}
+	if _, err := h.getRand(ctx, hash, cl.info, 5); err != nil {
+		panic(err)
+	}
+	cl.stream <- &zzResult{Round: 10, Signature: []byte{0xaa, 10}}
+	zz.Quiesce()
+	reqCtx, reqCancel := context.WithCancel(ctx)
+	returned := false
+	go func() {
+		_, _ = h.getRand(reqCtx, hash, cl.info, 11) // parked: 11 is the next round
+		returned = true
+	}()
+	zz.Quiesce()
+	// round 11 is produced and the client goes away, in either order and at any point of the hand-over
+	if zz.Bool("cancel_first") {
+		reqCancel()
+		cl.stream <- &zzResult{Round: 11, Signature: []byte{0xaa, 11}}
+	} else {
+		cl.stream <- &zzResult{Round: 11, Signature: []byte{0xaa, 11}}
+		reqCancel()
+	}
+	zz.Quiesce()
+	zz.Assert("cancelled_request_returns", returned)
+	// still serving: a new waiter for round 12 is released with round 12
+	var got []byte
+	var gerr error
+	served := false
+	go func() {
+		got, gerr = h.getRand(ctx, hash, cl.info, 12)
+		served = true
+	}()
+	zz.Quiesce()
+	cl.stream <- &zzResult{Round: 12, Signature: []byte{0xaa, 12}}
+	zz.Quiesce()
+	r, ok := zzRoundOf(got)
+	zz.Assert("watch_loop_still_releases_waiters", served && gerr == nil && ok && r == 12)
+	cancel()
+	zz.Quiesce()
+}
